@@ -1,6 +1,12 @@
 import OPM.Model.Interp
+import OPM.Model.InterpRun
 import OPM.Lemmas.Interp
 import OPM.Lemmas.InterpLock
+import OPM.Lemmas.InterpBlocks
+import OPM.Lemmas.InterpBlocksStep
+import OPM.Lemmas.InterpBlocksTag
+import OPM.Lemmas.InterpBlocksRun
+import OPM.Lemmas.InterpBlocksDone
 /-!
 # C05 Blocks nest and end correctly; Block tag names the active block
 
@@ -9,155 +15,48 @@ block (empty when none). 'End block' ends exactly the innermost active block tog
 pending Watches and Alarms, 'End blocks' ends all active blocks, and instructions after a block
 start only after that block has ended."
 
-Model: `OPM.Model.Interp` (frame-stack machine of the interpreter).  Theorems are about every
-micro-step of every generator, for every program (including the pathological nestings), hence about
-every tick and every reachable state, with no bound on program size or run length.
+Model: `OPM.Model.Interp` (frame-stack machine of the interpreter).  A block is *locked* while it
+holds `lock_acquired`, *active* while it is locked and not `block_ended` (an ended block keeps the lock
+until its own generator has run to the release point — its children may still be winding down).
+
+What is proved, and for which runs:
+
+* **chain** — in every reachable state of every method under every schedule the locked (hence the
+  active) blocks form one nested chain (`active_blocks_form_chain`, `active_chain`); every micro-step and
+  every tick keeps it (`chain_stepGen`, `chain_tick`).
+* **innermost** — `get_locked_blocks()` sorts by key-path *string*; for a well-formed method tree
+  (`ProgWF`, decidable, evaluated by the driver on every parsed method) the sorted list is deepest
+  first (`locked_blocks_deepest_first`, `active_head_is_innermost`).
+* **Block tag** — the full statement `C05_tag_full` (tag = name of the innermost active block, empty when
+  none, in every reachable state) is FALSE of the code: `C05_tag_counterexample` (an Alarm re-arm resets a
+  Block that holds the lock and leaves the tag; a second witness: `End block` names an already ended
+  block).  `C05_tag_partial`: it holds in every state reached by *calm* ticks — ticks without one of the
+  four exotic micro-steps of `exoticStep` (decidable along the run); every other micro-step of every
+  generator keeps it (`tagOk_stepGen`).
+* **End block** — the full statement `C05_endblock_full` (End block ends the innermost active block) is
+  FALSE of the code: `C05_endblock_counterexample` (the first *locked* block may already be ended; End block
+  re-ends it and leaves the innermost active block running).  `C05_endblock_partial`: when the first locked
+  block is not ended, End block ends exactly the innermost active block, removes exactly the interrupts
+  rooted inside it, moves no lock, and the tag names the next active block.
+  `endBlocks_ends_all`: End blocks ends every locked block and clears the tag.
+* **successor** — a Block's visit returns only through a step that leaves it completed
+  (`block_visit_returns_completed`), `completed` of a Block is set only by a step that found it ended
+  (`block_completes_only_when_ended`), and over every schedule a completed Block is an ended Block
+  (`completed_block_is_ended`); the parent's loop enters the next line only after the visit of the previous
+  one has returned (C02 `loop_advances_when_child_returns`).
 -/
 namespace OPM.C05
-open OPM.Interp
-
-/-! ## membership in `get_locked_blocks()` -/
-
-theorem mem_insertDesc (p : Prog) (x y : Nat) (l : List Nat) :
-    y ∈ insertDesc p x l ↔ y = x ∨ y ∈ l := by
-  induction l with
-  | nil => simp [insertDesc]
-  | cons z zs ih =>
-    simp only [insertDesc]
-    split
-    · simp
-    · simp only [List.mem_cons, ih]
-      constructor
-      · rintro (h | h | h) <;> simp [h]
-      · rintro (h | h | h) <;> simp [h]
-
-theorem mem_foldl_insertDesc (p : Prog) (bs acc : List Nat) (y : Nat) :
-    y ∈ bs.foldl (fun acc x => insertDesc p x acc) acc ↔ y ∈ bs ∨ y ∈ acc := by
-  induction bs generalizing acc with
-  | nil => simp
-  | cons b bs ih =>
-    simp only [List.foldl, ih, mem_insertDesc, List.mem_cons]
-    constructor
-    · rintro (h | h | h) <;> simp [h]
-    · rintro ((h | h) | h) <;> simp [h]
-
-/-- `b` is returned by `get_locked_blocks()` iff it is a Block of the method that holds the lock. -/
-theorem mem_lockedBlocks (p : Prog) (s : St) (b : Nat) :
-    b ∈ lockedBlocks p s ↔
-      b < p.size ∧ (node p b).inProgram = true ∧ isBlock p b = true ∧ (s.rt b).lockAcquired = true := by
-  unfold lockedBlocks
-  simp only [mem_foldl_insertDesc, List.mem_filter, List.mem_range, Bool.and_eq_true, getRt_eq]
-  constructor
-  · rintro (⟨h1, ⟨h2, h3⟩, h4⟩ | h)
-    · exact ⟨h1, h2, h3, h4⟩
-    · cases h
-  · rintro ⟨h1, h2, h3, h4⟩
-    exact Or.inl ⟨h1, ⟨h2, h3⟩, h4⟩
+open OPM.Interp OPM.InterpRun
 
 /-! ## the chain invariant -/
 
-/-- Any two locked method blocks are nested in each other. -/
-def Chain (p : Prog) (s : St) : Prop :=
-  ∀ a b, a ∈ lockedBlocks p s → b ∈ lockedBlocks p s →
-    a = b ∨ a ∈ ancestors p b ∨ b ∈ ancestors p a
-
-theorem chain_of_lock_step (p : Prog) (s s' : St) (n : Nat)
-    (hstep : ∀ k, (s'.rt k).lockAcquired = true →
-      (s.rt k).lockAcquired = true ∨ (k = n ∧ AcqOk p s k))
-    (h : Chain p s) : Chain p s' := by
-  intro a b ha hb
-  rw [mem_lockedBlocks] at ha hb
-  have old : ∀ k, k < p.size → (node p k).inProgram = true → isBlock p k = true →
-      (s.rt k).lockAcquired = true → k ∈ lockedBlocks p s := by
-    intro k h1 h2 h3 h4; exact (mem_lockedBlocks p s k).mpr ⟨h1, h2, h3, h4⟩
-  rcases hstep a ha.2.2.2 with la | ⟨ea, _, acqa⟩ <;> rcases hstep b hb.2.2.2 with lb | ⟨eb, _, acqb⟩
-  · exact h a b (old a ha.1 ha.2.1 ha.2.2.1 la) (old b hb.1 hb.2.1 hb.2.2.1 lb)
-  · -- b acquires now: every locked block is an ancestor of b
-    right; left
-    have := List.all_eq_true.mp acqb a (old a ha.1 ha.2.1 ha.2.2.1 la)
-    simpa using this
-  · right; right
-    have := List.all_eq_true.mp acqa b (old b hb.1 hb.2.1 hb.2.2.1 lb)
-    simpa using this
-  · left; rw [ea, eb]
-
-/-- Every micro-step of every generator preserves the chain. -/
+/-- Every micro-step of every generator preserves the chain of locked blocks. -/
 theorem chain_stepGen (p : Prog) (s : St) (stack : List Frame) (h : Chain p s) :
-    Chain p (stepGen p s stack).1 := by
-  cases stack with
-  | nil => exact h
-  | cons f below =>
-    apply chain_of_lock_step p s _ (frameNode f) _ h
-    intro k hk
-    rcases stepGen_lock p s (f :: below) k hk with h1 | ⟨f', hf, e, acq⟩
-    · exact Or.inl h1
-    · simp only [List.head?, Option.some.injEq] at hf
-      subst hf
-      exact Or.inr ⟨e, acq⟩
-
-theorem chain_congr (p : Prog) (s s' : St) (hrt : s'.rt = s.rt) (h : Chain p s) : Chain p s' := by
-  apply chain_of_lock_step p s s' 0 _ h
-  intro k hk; left; rw [hrt] at hk; exact hk
-
-theorem chain_runGen (p : Prog) (fuel : Nat) (s : St) (stack : List Frame) (h : Chain p s) :
-    Chain p (runGen p fuel s stack).1 := by
-  induction fuel generalizing s stack with
-  | zero => exact h
-  | succ fuel ih =>
-    unfold runGen
-    have h1 := chain_stepGen p s stack h
-    rcases hs : stepGen p s stack with ⟨s1, stack1, sig⟩
-    rw [hs] at h1
-    cases sig
-    · exact ih s1 stack1 h1
-    · exact h1
-    · exact h1
-
-theorem chain_runGid (p : Prog) (fuel : Nat) (s : St) (gid : Nat) (h : Chain p s) :
-    Chain p (runGid p fuel s gid).1 := by
-  unfold runGid
-  split
-  · exact h
-  · rename_i g _
-    have h1 := chain_runGen p fuel s g.stack h
-    rcases hr : runGen p fuel s g.stack with ⟨s1, stack1, ok⟩
-    rw [hr] at h1
-    exact chain_congr p s1 _ rfl h1
-
-theorem chain_foldInterrupts (p : Prog) (l : List Nat) (acc : St × Bool) (h : Chain p acc.1) :
-    Chain p (l.foldl (fun (acc : St × Bool) gid =>
-      let r := runGid p microFuel { acc.1 with inInterrupt := true } gid
-      ({ r.1 with inInterrupt := false }, acc.2 && r.2)) acc).1 := by
-  induction l generalizing acc with
-  | nil => exact h
-  | cons g l ih =>
-    simp only [List.foldl]
-    apply ih
-    apply chain_congr p _ _ rfl
-    exact chain_runGid p microFuel _ g (chain_congr p acc.1 _ rfl h)
+    Chain p (stepGen p s stack).1 := Interp.chain_stepGen p s stack h
 
 /-- A whole interpreter tick preserves the chain. -/
-theorem chain_tick (p : Prog) (s : St) (i : TickIn) (h : Chain p s) : Chain p (tick p s i).1 := by
-  unfold tick
-  simp only []
-  apply chain_congr p _ _ rfl
-  apply chain_foldInterrupts
-  apply chain_runGid
-  exact chain_congr p s _ rfl h
-
-theorem chain_init (p : Prog) : Chain p (init p) := by
-  intro a b ha _
-  rw [mem_lockedBlocks] at ha
-  simp [init] at ha
-
-theorem chain_setRt_keep (p : Prog) (s : St) (n : Nat) (f : NodeRt → NodeRt)
-    (hf : ∀ r, (f r).lockAcquired = r.lockAcquired) (h : Chain p s) : Chain p (setRt s n f) := by
-  apply chain_of_lock_step p s _ 0 _ h
-  intro k hk; left
-  simp only [rt_setRt] at hk
-  split at hk
-  · rename_i e; subst e; rw [hf] at hk; exact hk
-  · exact hk
+theorem chain_tick (p : Prog) (s : St) (i : TickIn) (h : Chain p s) : Chain p (tick p s i).1 :=
+  Interp.chain_tick p s i h
 
 /-- Requests between ticks (cancel, force, command completion) preserve the chain. -/
 theorem chain_cancel (p : Prog) (s s' : St) (n : Nat) (hc : cancel p s n = some s') (h : Chain p s) :
@@ -189,7 +88,7 @@ inductive Reachable (p : Prog) : St → Prop
   | complete (s : St) (n : Nat) : Reachable p s → Reachable p (completeCmd s n)
 
 /-- **C05, first clause.** In every reachable state of every method, under every schedule, the
-    locked (active) method blocks form a single nested chain. -/
+    locked method blocks form a single nested chain. -/
 theorem active_blocks_form_chain (p : Prog) (s : St) (hr : Reachable p s) : Chain p s := by
   induction hr with
   | init => exact chain_init p
@@ -197,6 +96,38 @@ theorem active_blocks_form_chain (p : Prog) (s : St) (hr : Reachable p s) : Chai
   | cancel s s' n _ hc ih => exact chain_cancel p s s' n hc ih
   | force s s' n _ hc ih => exact chain_force p s s' n hc ih
   | complete s n _ ih => exact chain_completeCmd p s n ih
+
+/-- …in particular the *active* blocks (locked and not ended) do. -/
+theorem active_chain (p : Prog) (s : St) (hr : Reachable p s) (a b : Nat)
+    (ha : a ∈ activeBlocks p s) (hb : b ∈ activeBlocks p s) :
+    a = b ∨ a ∈ ancestors p b ∨ b ∈ ancestors p a :=
+  active_blocks_form_chain p s hr a b (List.mem_filter.mp ha).1 (List.mem_filter.mp hb).1
+
+/-! ## "innermost": the key-path sort puts the deepest block first -/
+
+/-- For a well-formed method tree and a chain of locked blocks, `get_locked_blocks()` (sorted by key-path
+    string, reversed) lists the blocks deepest first: every later element is an ancestor of every earlier
+    one. -/
+theorem locked_blocks_deepest_first (p : Prog) (s : St) (hwf : ProgWF p = true) (hr : Reachable p s) :
+    (lockedBlocks p s).Pairwise (fun a b => b ∈ ancestors p a) :=
+  lockedBlocks_pairwise p s hwf (active_blocks_form_chain p s hr)
+
+/-- …so the two `__debug__` assertions of `get_locked_blocks()` cannot fire: every later block of the sorted
+    list is an ancestor of every earlier one (in particular of the first), and its key path is a proper prefix
+    (hence a substring) of the earlier one's. -/
+theorem get_locked_blocks_assertions_hold (p : Prog) (s : St) (hwf : ProgWF p = true) (hr : Reachable p s) :
+    (lockedBlocks p s).Pairwise (fun a b =>
+      b ∈ ancestors p a ∧ properPrefix (node p b).keyPath (node p a).keyPath = true) :=
+  (locked_blocks_deepest_first p s hwf hr).imp
+    (fun {a b} h => ⟨h, (ancestorsAux_wf p hwf _ a b h).2⟩)
+
+/-- The first active block is the innermost one: every other active block is one of its ancestors. -/
+theorem active_head_is_innermost (p : Prog) (s : St) (hwf : ProgWF p = true) (hch : Chain p s)
+    (a : Nat) (rest : List Nat) (ha : activeBlocks p s = a :: rest) : ∀ y ∈ rest, y ∈ ancestors p a := by
+  have hp : (activeBlocks p s).Pairwise (Deeper p) :=
+    List.Pairwise.filter _ (lockedBlocks_pairwise p s hwf hch)
+  rw [ha, List.pairwise_cons] at hp
+  exact hp.1
 
 /-! ## acquiring -/
 
@@ -222,143 +153,26 @@ theorem acquire_blocked (p : Prog) (s : St) (n : Nat) (name : String) (below : L
   simp only [hk, getRt_eq, hnl, hall]
   rfl
 
-/-! ## End block / End blocks -/
+/-! ## concrete runs (witnesses and non-vacuity) -/
 
-/-- **End block** ends exactly the first (innermost) locked block: it gets `block_ended`, no other
-    node's `block_ended` changes, the Block tag becomes the next outer locked block's name (none if
-    there is none), and exactly the interrupts rooted inside the ended block are unregistered. -/
-theorem endBlock_ends_innermost (p : Prog) (s : St) (old : Nat) (rest : List Nat)
-    (hl : lockedBlocks p s = old :: rest) :
-    let s' := endBlockStep p s
-    (s'.rt old).blockEnded = true ∧
-    (∀ k, k ≠ old → (s'.rt k).blockEnded = (s.rt k).blockEnded) ∧
-    s'.blockTag = rest.head?.map (blockName p) ∧
-    s'.imap = s.imap.filter (fun e => !(descendants p old).contains e.1) ∧
-    (∀ k, (s'.rt k).lockAcquired = (s.rt k).lockAcquired) := by
-  simp only [endBlockStep, hl]
-  refine ⟨?_, ?_, ?_, ?_, ?_⟩
-  · unfold endOneBlock
-    simp only [rt_emit]
-    rw [proj_abortBlockInterrupts (·.blockEnded) (fun _ _ => rfl) (fun _ _ => rfl)]
-    simp
-  · intro k hk
-    unfold endOneBlock
-    simp only [rt_emit]
-    rw [proj_abortBlockInterrupts (·.blockEnded) (fun _ _ => rfl) (fun _ _ => rfl)]
-    simp [hk]
-  · unfold endOneBlock
-    simp only [emit]
-    unfold abortBlockInterrupts
-    have : ∀ (l : List (Nat × Nat)) (s : St),
-        (l.foldl (fun s e =>
-          if (descendants p old).contains e.1 then
-            unregisterInterrupt (setRt s e.1 (fun r => { r with childrenComplete := true })) e.1
-          else s) s).blockTag = s.blockTag := by
-      intro l
-      induction l with
-      | nil => intro s; rfl
-      | cons x l ih => intro s; simp only [List.foldl]; rw [ih]; split <;> rfl
-    rw [this]; rfl
-  · unfold endOneBlock
-    simp only [emit]
-    rw [imap_abort]; rfl
-  · intro k
-    exact lock_endOneBlock p _ old _ k
+/-- the state after the given ticks from the start of the method -/
+def runTicks (p : Prog) (ins : List TickIn) : St := ins.foldl (fun s i => (tick p s i).1) (init p)
 
-/-- **End block with no locked block** changes nothing (it just completes). -/
-theorem endBlock_without_block (p : Prog) (s : St) (hl : lockedBlocks p s = []) :
-    endBlockStep p s = s := by
-  simp [endBlockStep, hl]
+theorem reachable_foldl (p : Prog) (ins : List TickIn) (s : St) (h : Reachable p s) :
+    Reachable p (ins.foldl (fun s i => (tick p s i).1) s) := by
+  induction ins generalizing s with
+  | nil => exact h
+  | cons i ins ih => exact ih _ (Reachable.tick s i h)
 
-/-- **End blocks** ends every locked block and clears the Block tag. -/
-theorem endBlocks_ends_all (p : Prog) (s : St) :
-    let s' := endBlocksStep p s
-    s'.blockTag = none ∧
-    (∀ b, b ∈ lockedBlocks p s → (s'.rt b).blockEnded = true) ∧
-    (∀ k, (s.rt k).blockEnded = true → (s'.rt k).blockEnded = true) := by
-  simp only [endBlocksStep]
-  refine ⟨?_, ?_, ?_⟩
-  · first | rfl | trivial
-  · -- every element of the list is ended by its own fold step and never un-ended afterwards
-    have keep : ∀ (s : St) (old : Nat) (nm : String) (k : Nat),
-        (s.rt k).blockEnded = true → ((endOneBlock p s old nm).rt k).blockEnded = true := by
-      intro s old nm k hk
-      unfold endOneBlock
-      simp only [rt_emit]
-      rw [proj_abortBlockInterrupts (·.blockEnded) (fun _ _ => rfl) (fun _ _ => rfl)]
-      simp only [rt_setRt]; split
-      · rfl
-      · exact hk
-    have sets : ∀ (s : St) (old : Nat) (nm : String), ((endOneBlock p s old nm).rt old).blockEnded = true := by
-      intro s old nm
-      unfold endOneBlock
-      simp only [rt_emit]
-      rw [proj_abortBlockInterrupts (·.blockEnded) (fun _ _ => rfl) (fun _ _ => rfl)]
-      simp
-    have key : ∀ (l : List (Nat × Nat)) (g : Nat × Nat → String) (s : St) (b : Nat),
-        ((s.rt b).blockEnded = true ∨ b ∈ l.map (·.1)) →
-        ((l.foldl (fun s x => endOneBlock p s x.1 (g x)) s).rt b).blockEnded = true := by
-      intro l g
-      induction l with
-      | nil => intro s b h; rcases h with h | h; exact h; cases h
-      | cons x l ih =>
-        intro s b h
-        simp only [List.foldl]
-        apply ih
-        rcases h with h | h
-        · exact Or.inl (keep _ _ _ _ h)
-        · simp only [List.map_cons, List.mem_cons] at h
-          rcases h with h | h
-          · left; rw [h]; exact sets _ _ _
-          · exact Or.inr h
-    intro b hb
-    apply key _ (fun x => if x.2 + 1 < (lockedBlocks p s).length - 1 then
-      ((lockedBlocks p s)[x.2 + 1]?.map (blockName p)).getD "" else "")
-    right
-    have : List.map (fun x : Nat × Nat => x.1) (lockedBlocks p s).zipIdx = lockedBlocks p s :=
-      List.zipIdx_map_fst 0 _
-    rw [this]; exact hb
-  · intro k hk
-    have key : ∀ (l : List (Nat × Nat)) (g : Nat × Nat → String) (s : St),
-        (s.rt k).blockEnded = true →
-        ((l.foldl (fun s x => endOneBlock p s x.1 (g x)) s).rt k).blockEnded = true := by
-      intro l g
-      induction l with
-      | nil => intro s h; exact h
-      | cons x l ih =>
-        intro s h
-        simp only [List.foldl]
-        apply ih
-        unfold endOneBlock
-        simp only [rt_emit]
-        rw [proj_abortBlockInterrupts (·.blockEnded) (fun _ _ => rfl) (fun _ _ => rfl)]
-        simp only [rt_setRt]; split
-        · rfl
-        · exact h
-    exact key _ (fun x => if x.2 + 1 < (lockedBlocks p s).length - 1 then
-      ((lockedBlocks p s)[x.2 + 1]?.map (blockName p)).getD "" else "") s hk
+theorem reachable_runTicks (p : Prog) (ins : List TickIn) : Reachable p (runTicks p ins) :=
+  reachable_foldl p ins _ Reachable.init
 
-/-! ## a block completes only after it has been ended -/
+/-- every tick of the run is calm -/
+def calmRun (p : Prog) : St → List TickIn → Bool
+  | _, [] => true
+  | s, i :: ins => calmTick p s i && calmRun p (tick p s i).1 ins
 
-/-- The `completed` flag of a Block flips to true only in a micro-step that found `block_ended`
-    set (so its successor, which the parent's loop enters only after the block's visit returned,
-    starts only after the block has ended). -/
-theorem block_completes_only_when_ended (p : Prog) (s : St) (n pc : Nat) (name : String) (below : List Frame)
-    (hk : (node p n).kind = .block name)
-    (hnc : (s.rt n).completed = false)
-    (hc : ((outState (stepBody p s n pc below)).rt n).completed = true) :
-    (s.rt n).blockEnded = true := by
-  by_cases hbe : (s.rt n).blockEnded = true
-  · exact hbe
-  · exfalso
-    unfold stepBody at hc
-    simp only [hk, getRt_eq, hnc, hbe] at hc
-    repeat' split at hc
-    all_goals (try simp only [outState, rt_setRt, rt_emit, rt_finishNode] at hc)
-    all_goals simp_all
-
-/-! ## non-vacuity: a concrete run with two nested blocks -/
-
+/-- `Block: A` [ `Block: B` [ `End block` ] ] -/
 def demo : Prog := #[
   { kind := .program, parent := none, children := [1], threshold := none, keyPath := [0] },
   { kind := .block "A", parent := some 0, children := [2], threshold := none, keyPath := [0, 1] },
@@ -366,12 +180,397 @@ def demo : Prog := #[
   { kind := .endBlock, parent := some 2, children := [], threshold := none, keyPath := [0, 1, 2, 3] }]
 
 def demoRun (k : Nat) : St :=
-  (List.range k).foldl (fun s i => (tick demo s ⟨(i : Nat), (i : Nat), (i : Nat), []⟩).1) (init demo)
+  runTicks demo ((List.range k).map fun i => ⟨(i : Nat), (i : Nat), (i : Nat), []⟩)
 
 /-- after 4 ticks both blocks are locked (the hypotheses of the chain theorem are met non-trivially) -/
-example : lockedBlocks demo (demoRun 4) = [2, 1] ∧ (demoRun 4).blockTag = some "B" := by decide +kernel
+example : ProgWF demo = true ∧ lockedBlocks demo (demoRun 4) = [2, 1] ∧ (demoRun 4).blockTag = some "B" := by
+  decide +kernel
 /-- End block then ends the inner one and the tag names the outer one -/
 example : ((demoRun 5).rt 2).blockEnded = true ∧ ((demoRun 5).rt 1).blockEnded = false ∧
     (demoRun 5).blockTag = some "A" ∧ lockedBlocks demo (demoRun 6) = [1] := by decide +kernel
+
+/-- Witness 1. `Alarm: T0 > 0` [ `Watch: T1 > 0` [ `Block: W` [ `Wait: 2s` / `End block` ] ] / `Mark: a` ]
+    with T0 = T1 = 1 throughout. -/
+def alarmProg : Prog := #[
+  { kind := .program, parent := none, children := [1], threshold := none, keyPath := [0] },
+  { kind := .alarm ⟨0, .gt, 0⟩, parent := some 0, children := [2, 6], threshold := none, keyPath := [0, 1] },
+  { kind := .watch ⟨1, .gt, 0⟩, parent := some 1, children := [3], threshold := none, keyPath := [0, 1, 2] },
+  { kind := .block "W", parent := some 2, children := [4, 5], threshold := none, keyPath := [0, 1, 2, 3] },
+  { kind := .wait 2, parent := some 3, children := [], threshold := none, keyPath := [0, 1, 2, 3, 4] },
+  { kind := .endBlock, parent := some 3, children := [], threshold := none, keyPath := [0, 1, 2, 3, 5] },
+  { kind := .mark "a", parent := some 1, children := [], threshold := none, keyPath := [0, 1, 6] }]
+
+def alarmIn (i : Nat) : TickIn := ⟨(i : Nat) / 8, (i : Nat) / 8, 0, [1, 1]⟩
+def alarmRun (k : Nat) : St := runTicks alarmProg ((List.range k).map alarmIn)
+
+/-- Witness 2. `Block: A` [ `Watch: T0 > 0` [ `End block` ] / `Watch: T1 > 0` [ `End block` ] /
+    `Block: B` [ `Wait: 3s` ] / `Mark: a` ], T0 = 1 from tick 12, T1 = 1 from tick 18. -/
+def twoEndProg : Prog := #[
+  { kind := .program, parent := none, children := [1], threshold := none, keyPath := [0] },
+  { kind := .block "A", parent := some 0, children := [2, 4, 6, 8], threshold := none, keyPath := [0, 1] },
+  { kind := .watch ⟨0, .gt, 0⟩, parent := some 1, children := [3], threshold := none, keyPath := [0, 1, 2] },
+  { kind := .endBlock, parent := some 2, children := [], threshold := none, keyPath := [0, 1, 2, 3] },
+  { kind := .watch ⟨1, .gt, 0⟩, parent := some 1, children := [5], threshold := none, keyPath := [0, 1, 4] },
+  { kind := .endBlock, parent := some 4, children := [], threshold := none, keyPath := [0, 1, 4, 5] },
+  { kind := .block "B", parent := some 1, children := [7], threshold := none, keyPath := [0, 1, 6] },
+  { kind := .wait 3, parent := some 6, children := [], threshold := none, keyPath := [0, 1, 6, 7] },
+  { kind := .mark "a", parent := some 1, children := [], threshold := none, keyPath := [0, 1, 8] }]
+
+def twoEndIn (i : Nat) : TickIn :=
+  ⟨(i : Nat) / 8, (i : Nat) / 8, 0, [if i ≥ 12 then 1 else 0, if i ≥ 18 then 1 else 0]⟩
+def twoEndRun (k : Nat) : St := runTicks twoEndProg ((List.range k).map twoEndIn)
+
+/-- Witness 3. `Watch: T0 > 0` [ `End block` ] / `Block: A` [ `Block: B` [ `Wait: 1s` / `End blocks` ] /
+    `Mark: a` ] / `Mark: z`, T0 = 1 from tick 14: the Watch's End block runs in the tick of End blocks. -/
+def afterEndBlocksProg : Prog := #[
+  { kind := .program, parent := none, children := [1, 3, 8], threshold := none, keyPath := [0] },
+  { kind := .watch ⟨0, .gt, 0⟩, parent := some 0, children := [2], threshold := none, keyPath := [0, 1] },
+  { kind := .endBlock, parent := some 1, children := [], threshold := none, keyPath := [0, 1, 2] },
+  { kind := .block "A", parent := some 0, children := [4, 7], threshold := none, keyPath := [0, 3] },
+  { kind := .block "B", parent := some 3, children := [5, 6], threshold := none, keyPath := [0, 3, 4] },
+  { kind := .wait 1, parent := some 4, children := [], threshold := none, keyPath := [0, 3, 4, 5] },
+  { kind := .endBlocks, parent := some 4, children := [], threshold := none, keyPath := [0, 3, 4, 6] },
+  { kind := .mark "a", parent := some 3, children := [], threshold := none, keyPath := [0, 3, 7] },
+  { kind := .mark "z", parent := some 0, children := [], threshold := none, keyPath := [0, 8] }]
+
+def afterEndBlocksIn (i : Nat) : TickIn := ⟨(i : Nat) / 8, (i : Nat) / 8, 0, [if i ≥ 14 then 1 else 0]⟩
+def afterEndBlocksRun (k : Nat) : St := runTicks afterEndBlocksProg ((List.range k).map afterEndBlocksIn)
+
+/-- Witness 4. `Watch: T0 > 0` [ `Block: B` [ `Alarm: T1 > 0` [ `Mark: m` ] / `End block` ] ] / `Mark: z`,
+    T0 = 1, T1 = 0 throughout. -/
+def reregProg : Prog := #[
+  { kind := .program, parent := none, children := [1, 6], threshold := none, keyPath := [0] },
+  { kind := .watch ⟨0, .gt, 0⟩, parent := some 0, children := [2], threshold := none, keyPath := [0, 1] },
+  { kind := .block "B", parent := some 1, children := [3, 5], threshold := none, keyPath := [0, 1, 2] },
+  { kind := .alarm ⟨1, .gt, 0⟩, parent := some 2, children := [4], threshold := none, keyPath := [0, 1, 2, 3] },
+  { kind := .mark "m", parent := some 3, children := [], threshold := none, keyPath := [0, 1, 2, 3, 4] },
+  { kind := .endBlock, parent := some 2, children := [], threshold := none, keyPath := [0, 1, 2, 5] },
+  { kind := .mark "z", parent := some 0, children := [], threshold := none, keyPath := [0, 6] }]
+
+def reregIn (i : Nat) : TickIn := ⟨(i : Nat) / 8, (i : Nat) / 8, 0, [1, 0]⟩
+def reregRun (k : Nat) : St := runTicks reregProg ((List.range k).map reregIn)
+
+/-! ## the Block tag -/
+
+/-- **The clause at full strength**: in every reachable state of every (well-formed) method the Block tag
+    is the name of the innermost active block, empty when there is none. -/
+def C05_tag_full : Prop :=
+  ∀ (p : Prog) (s : St), ProgWF p = true → Reachable p s → TagOk p s
+
+/-- Witness 1 on the model: after 16 ticks the Alarm has re-armed; the Block `W` was reset while it held
+    the lock (its Watch is still running it), no block is locked, the tag still says `W`.  The tick that did
+    it is not calm. -/
+theorem C05_tag_witness_alarm_rearm :
+    ProgWF alarmProg = true ∧ lockedBlocks alarmProg (alarmRun 15) = [3] ∧ (alarmRun 15).blockTag = some "W" ∧
+    lockedBlocks alarmProg (alarmRun 16) = [] ∧ (alarmRun 16).blockTag = some "W" ∧
+    calmTick alarmProg (alarmRun 15) (alarmIn 15) = false := by
+  decide +kernel
+
+/-- **The full clause is false of the code as it is.** -/
+theorem C05_tag_counterexample : ¬ C05_tag_full := by
+  intro h
+  have := h alarmProg (alarmRun 16) (by decide +kernel) (reachable_runTicks _ _)
+  revert this
+  decide +kernel
+
+/-- Witness 3 on the model: `End blocks` ends `B` and `A` and clears the tag; the Watch's `End block` runs in
+    the same tick, re-ends `B` and sets the tag to `A` — which is ended.  40 ticks later both blocks have long
+    completed and the tag still says `A`.  That tick is not calm either. -/
+theorem C05_tag_witness_end_block_names_ended :
+    ProgWF afterEndBlocksProg = true ∧
+    activeBlocks afterEndBlocksProg (afterEndBlocksRun 40) = [] ∧ (afterEndBlocksRun 40).blockTag = some "A" ∧
+    ((afterEndBlocksRun 40).rt 3).completed = true ∧ ((afterEndBlocksRun 40).rt 4).completed = true ∧
+    calmRun afterEndBlocksProg (init afterEndBlocksProg) ((List.range 40).map afterEndBlocksIn) = false := by
+  decide +kernel
+
+/-- States reachable by calm ticks (no exotic micro-step, see `exoticStep`) and any requests. -/
+inductive CalmReachable (p : Prog) : St → Prop
+  | init : CalmReachable p (init p)
+  | tick (s : St) (i : TickIn) : CalmReachable p s → calmTick p s i = true → CalmReachable p (tick p s i).1
+  | cancel (s s' : St) (n : Nat) : CalmReachable p s → cancel p s n = some s' → CalmReachable p s'
+  | force (s s' : St) (n : Nat) : CalmReachable p s → force p s n = some s' → CalmReachable p s'
+  | complete (s : St) (n : Nat) : CalmReachable p s → CalmReachable p (completeCmd s n)
+
+theorem CalmReachable.reachable {p : Prog} {s : St} (h : CalmReachable p s) : Reachable p s := by
+  induction h with
+  | init => exact .init
+  | tick s i _ _ ih => exact .tick s i ih
+  | cancel s s' n _ hc ih => exact .cancel s s' n ih hc
+  | force s s' n _ hc ih => exact .force s s' n ih hc
+  | complete s n _ ih => exact .complete s n ih
+
+/-- Every micro-step of every generator that is not exotic keeps the Block tag on the innermost active
+    block (any method, any state with a chain of locked blocks). -/
+theorem tagOk_stepGen (p : Prog) (s : St) (stack : List Frame) (hwf : ProgWF p = true)
+    (hch : Chain p s) (hex : exoticStep p s stack = false) (h : TagOk p s) :
+    TagOk p (stepGen p s stack).1 := Interp.tagOk_stepGen p s stack hwf hch hex h
+
+/-- **The Block-tag clause, for calm runs.**  In every state reached from the start of a well-formed method
+    by calm ticks (any clocks, any tag values) and any cancel / force / completion requests, the Block tag is
+    the name of the innermost active block, empty when there is none. -/
+theorem C05_tag_partial (p : Prog) (hwf : ProgWF p = true) (s : St) (hr : CalmReachable p s) : TagOk p s := by
+  have key : BlkGood p s := by
+    induction hr with
+    | init => exact ⟨chain_init p, tagOk_init p⟩
+    | tick s i _ hc ih => exact blkGood_tick p hwf s i ih hc
+    | cancel s s' n _ hc ih =>
+      unfold OPM.Interp.cancel at hc
+      split at hc
+      · cases hc; exact blkGood_setRt_keep p s n _ (fun _ => ⟨rfl, rfl⟩) ih
+      · cases hc
+    | force s s' n _ hc ih =>
+      unfold OPM.Interp.force at hc
+      split at hc
+      · cases hc; exact blkGood_setRt_keep p s n _ (fun _ => ⟨rfl, rfl⟩) ih
+      · cases hc
+    | complete s n _ ih =>
+      unfold completeCmd
+      split
+      · exact ih
+      · exact blkGood_setRt_keep p s n _ (fun _ => ⟨rfl, rfl⟩) ih
+  exact key.2
+
+theorem calmReachable_foldl (p : Prog) (ins : List TickIn) (s : St) (h : CalmReachable p s)
+    (hc : calmRun p s ins = true) : CalmReachable p (ins.foldl (fun s i => (tick p s i).1) s) := by
+  induction ins generalizing s with
+  | nil => exact h
+  | cons i ins ih =>
+    simp only [calmRun, Bool.and_eq_true] at hc
+    exact ih _ (CalmReachable.tick s i h hc.1) hc.2
+
+/-- …in the form used on concrete runs: a calm run of ticks ends with the tag right. -/
+theorem tag_after_calm_run (p : Prog) (hwf : ProgWF p = true) (ins : List TickIn)
+    (hc : calmRun p (init p) ins = true) : TagOk p (runTicks p ins) :=
+  C05_tag_partial p hwf _ (calmReachable_foldl p ins _ CalmReachable.init hc)
+
+/-- The hypothesis is satisfiable on a run with interrupts and nested blocks: all 45 ticks of witness 2
+    (two Watches that fire, a Block ended from a Watch while it keeps the lock) are calm; half-way the tag
+    names `A` while `B` (ended, winding down) still holds the lock. -/
+example : calmRun twoEndProg (init twoEndProg) ((List.range 45).map twoEndIn) = true ∧
+    lockedBlocks twoEndProg (twoEndRun 20) = [6, 1] ∧ activeBlocks twoEndProg (twoEndRun 20) = [1] ∧
+    (twoEndRun 20).blockTag = some "A" := by decide +kernel
+
+/-- …and the theorem applies to it: the tag is right after the whole run. -/
+example : TagOk twoEndProg (twoEndRun 45) :=
+  tag_after_calm_run twoEndProg (by decide +kernel) _ (by decide +kernel)
+
+/-! ## End block / End blocks -/
+
+/-- **The clause at full strength**: `End block`, executed in any reachable state, ends the innermost active
+    block. -/
+def C05_endblock_full : Prop :=
+  ∀ (p : Prog) (s : St), ProgWF p = true → Reachable p s →
+    ∀ a rest, activeBlocks p s = a :: rest → ((endBlockStep p s).rt a).blockEnded = true
+
+/-- Witness 2 on the model: after 20 ticks `B` is ended (by the first Watch's End block) but still holds the
+    lock while its Wait runs, the innermost active block is `A`; the second Watch's End block (completed at tick
+    21) re-ends `B`, and 20 ticks later `A` is still not ended. -/
+theorem C05_endblock_witness :
+    ProgWF twoEndProg = true ∧
+    lockedBlocks twoEndProg (twoEndRun 20) = [6, 1] ∧ ((twoEndRun 20).rt 6).blockEnded = true ∧
+    activeBlocks twoEndProg (twoEndRun 20) = [1] ∧
+    ((twoEndRun 20).rt 5).completed = false ∧ ((twoEndRun 21).rt 5).completed = true ∧
+    ((twoEndRun 41).rt 1).blockEnded = false ∧ activeBlocks twoEndProg (twoEndRun 41) = [1] := by
+  decide +kernel
+
+/-- **The full clause is false of the code as it is.** -/
+theorem C05_endblock_counterexample : ¬ C05_endblock_full := by
+  intro h
+  have := h twoEndProg (twoEndRun 20) (by decide +kernel) (reachable_runTicks _ _) 1 [] (by decide +kernel)
+  revert this
+  decide +kernel
+
+/-- the first locked block is not ended (so it is the innermost active one) -/
+def headActive (p : Prog) (s : St) : Bool :=
+  match lockedBlocks p s with
+  | old :: _ => !(s.rt old).blockEnded
+  | [] => true
+
+/-- **End block, when the first locked block is still active**, ends exactly the innermost active block
+    `a` (every other active block is an ancestor of `a`): `a` gets `block_ended`, no other node's flag
+    changes, the active blocks that remain are exactly the others, exactly the interrupts rooted inside `a`
+    are unregistered, no lock moves; and if the block enclosing `a` is not an ended one, the Block tag names
+    the next active block (empty when none). -/
+theorem C05_endblock_partial (p : Prog) (s : St) (hwf : ProgWF p = true) (hch : Chain p s)
+    (a : Nat) (rest : List Nat) (ha : activeBlocks p s = a :: rest) (hh : headActive p s = true) :
+    let s' := endBlockStep p s
+    (∀ y ∈ rest, y ∈ ancestors p a) ∧
+    (s'.rt a).blockEnded = true ∧
+    (∀ k, k ≠ a → (s'.rt k).blockEnded = (s.rt k).blockEnded) ∧
+    activeBlocks p s' = rest ∧
+    s'.imap = s.imap.filter (fun e => !(descendants p a).contains e.1) ∧
+    (∀ k, (s'.rt k).lockAcquired = (s.rt k).lockAcquired) ∧
+    ((match lockedBlocks p s with | _ :: b :: _ => (s.rt b).blockEnded | _ => false) = false →
+      tagName s'.blockTag = tagName (rest.head?.map (blockName p))) := by
+  intro s'
+  have hin := active_head_is_innermost p s hwf hch a rest ha
+  cases hl : lockedBlocks p s with
+  | nil => unfold activeBlocks at ha; rw [hl] at ha; cases ha
+  | cons old lrest =>
+    unfold headActive at hh
+    rw [hl] at hh
+    simp only at hh
+    have hold : (!(s.rt old).blockEnded) = true := hh
+    -- `a` is the first locked block
+    have ha' := ha
+    unfold activeBlocks at ha'
+    rw [hl, List.filter_cons, if_pos hold] at ha'
+    have hao : old = a := by injection ha'
+    have hrest : lrest.filter (fun b => !(s.rt b).blockEnded) = rest := by injection ha'
+    subst hao
+    obtain ⟨ht, he, hlk, him⟩ := endBlockStep_cons p s old lrest hl
+    have hpw := lockedBlocks_pairwise p s hwf hch
+    rw [hl, List.pairwise_cons] at hpw
+    have hne : ∀ b ∈ lrest, b ≠ old := by
+      intro b hb e
+      have := ancestors_lt p hwf old b (hpw.1 b hb)
+      omega
+    have hact : activeBlocks p s' = rest := by
+      unfold activeBlocks
+      rw [lockedBlocks_congr p s s' hlk, hl, List.filter_cons]
+      have : (!(s'.rt old).blockEnded) = false := by rw [he]; simp
+      rw [this]
+      simp only [Bool.false_eq_true, if_false]
+      rw [← hrest]
+      apply List.filter_congr
+      intro b hb
+      rw [he, if_neg (hne b hb)]
+    refine ⟨hin, ?_, ?_, hact, him, hlk, ?_⟩
+    · rw [he]; simp
+    · intro k hk; rw [he, if_neg hk]
+    · intro hex
+      rw [ht, ← hrest]
+      cases lrest with
+      | nil => rfl
+      | cons b lr =>
+        simp only at hex
+        simp only [List.head?_cons, Option.map_some, List.filter_cons, hex, Bool.not_false, if_true]
+
+/-- **"…together with its pending Watches and Alarms", over a whole tick, at full strength**: an interrupt
+    rooted inside a block that was registered before the tick in which the block is ended is not registered
+    after that tick. -/
+def C05_interrupts_full : Prop :=
+  ∀ (p : Prog) (s : St) (i : TickIn), ProgWF p = true → Reachable p s →
+    ∀ b w, isBlock p b = true → w ∈ descendants p b → (s.rt b).blockEnded = false →
+      (((tick p s i).1).rt b).blockEnded = true → w ∈ s.imap.map (·.1) → w ∉ ((tick p s i).1).imap.map (·.1)
+
+/-- Witness 4 on the model: the Alarm inside `B` is registered (generator 2) when the tick starts in which the
+    Watch's handler runs `End block`; the step itself removes it (`C05_endblock_partial`), but the tick still runs
+    the Alarm's handler from its copy of the table, and that handler — at the entry of `visit_AlarmNode`, finding
+    `interrupt_registered` cleared — registers the Alarm again (generator 3).  It stays registered. -/
+theorem C05_interrupts_witness :
+    ProgWF reregProg = true ∧
+    (reregRun 8).imap = [(1, 1), (3, 2)] ∧ ((reregRun 8).rt 2).blockEnded = false ∧
+    ((reregRun 9).rt 2).blockEnded = true ∧ (reregRun 9).imap = [(1, 1), (3, 3)] ∧
+    (reregRun 30).imap = [(1, 1), (3, 3)] := by
+  decide +kernel
+
+/-- **That clause is false of the code as it is** (what holds is the state change of the End block step, the
+    `imap` conjunct of `C05_endblock_partial`, and that a tick keeps only registered generators). -/
+theorem C05_interrupts_counterexample : ¬ C05_interrupts_full := by
+  intro h
+  have := h reregProg (reregRun 8) (reregIn 8) (by decide +kernel) (reachable_runTicks _ _) 2 3
+    (by decide +kernel) (by decide +kernel) (by decide +kernel)
+  have e : (tick reregProg (reregRun 8) (reregIn 8)).1 = reregRun 9 := by
+    unfold reregRun runTicks
+    rw [List.range_succ, List.map_append, List.foldl_append]
+    rfl
+  rw [e] at this
+  revert this
+  decide +kernel
+
+/-- **End block with no locked block** changes nothing (it just completes). -/
+theorem endBlock_without_block (p : Prog) (s : St) (hl : lockedBlocks p s = []) :
+    endBlockStep p s = s := endBlockStep_nil p s hl
+
+/-- **End blocks** ends every locked (hence every active) block, un-ends none, clears the Block tag, moves no
+    lock — so afterwards no block is active. -/
+theorem endBlocks_ends_all (p : Prog) (s : St) :
+    let s' := endBlocksStep p s
+    s'.blockTag = none ∧
+    (∀ b, b ∈ lockedBlocks p s → (s'.rt b).blockEnded = true) ∧
+    (∀ k, (s.rt k).blockEnded = true → (s'.rt k).blockEnded = true) ∧
+    (∀ k, (s'.rt k).lockAcquired = (s.rt k).lockAcquired) ∧
+    activeBlocks p s' = [] := by
+  intro s'
+  obtain ⟨ht, he, hlk⟩ := endBlocksStep_effect p s
+  refine ⟨ht, ?_, ?_, hlk, ?_⟩
+  · intro b hb; rw [he]; simp [hb]
+  · intro k hk; rw [he, hk]; rfl
+  · unfold activeBlocks
+    rw [lockedBlocks_congr p s s' hlk, List.filter_eq_nil_iff]
+    intro b hb
+    rw [he]; simp [hb]
+
+/-- the hypotheses of `C05_endblock_partial` are met after 4 ticks of `demo`, and End block then leaves `[A]` -/
+example : headActive demo (demoRun 4) = true ∧ activeBlocks demo (demoRun 4) = [2, 1] ∧
+    activeBlocks demo (endBlockStep demo (demoRun 4)) = [1] := by decide +kernel
+/-- End blocks in that state leaves no active block although both keep their locks -/
+example : activeBlocks demo (endBlocksStep demo (demoRun 4)) = [] ∧
+    lockedBlocks demo (endBlocksStep demo (demoRun 4)) = [2, 1] := by decide +kernel
+
+/-! ## instructions after a block start only after the block has ended -/
+
+/-- The `completed` flag of a Block flips to true only in a micro-step that found `block_ended` set. -/
+theorem block_completes_only_when_ended (p : Prog) (s : St) (n pc : Nat) (name : String) (below : List Frame)
+    (hk : (node p n).kind = .block name)
+    (hnc : (s.rt n).completed = false)
+    (hc : ((outState (stepBody p s n pc below)).rt n).completed = true) :
+    (s.rt n).blockEnded = true := block_completed_needs_ended p s n pc name below hk hnc hc
+
+/-- The visit of a Block returns to the parent's loop (the body frame is popped) only through a step that
+    leaves the Block completed (`pc` 0, 1, 3 are the Block body's entry, acquire and await points — the only
+    ones the machine creates). -/
+theorem block_visit_returns_completed (p : Prog) (s s' : St) (n pc : Nat) (name : String) (below : List Frame)
+    (sig : Signal) (hk : (node p n).kind = .block name) (hpc : pc = 0 ∨ pc = 1 ∨ pc = 3)
+    (h : stepBody p s n pc below = .next s' [] sig) : (s'.rt n).completed = true := by
+  unfold stepBody at h
+  simp only [hk] at h
+  rcases hpc with e | e | e <;> subst e <;> simp only at h
+  · by_cases hc : (getRt s n).completed = true
+    · rw [if_pos hc] at h
+      injection h with h1 h2 h3
+      subst h1
+      simp only [rt_setRt, if_true]
+      exact hc
+    · rw [if_neg hc] at h
+      by_cases he : (getRt s n).blockEnded = true
+      · rw [if_pos he] at h
+        injection h with h1 h2 h3
+        subst h1
+        simp
+      · rw [if_neg he] at h
+        injection h with h1 h2 h3
+        cases h2
+  · by_cases hl : (getRt s n).lockAcquired = true
+    · rw [if_pos hl] at h
+      injection h with h1 h2 h3
+      cases h2
+    · rw [if_neg hl] at h
+      split at h
+      · injection h with h1 h2 h3
+        cases h2
+      · injection h with h1 h2 h3
+        cases h2
+  · by_cases he : (getRt s n).blockEnded = true
+    · rw [if_pos he] at h
+      injection h with h1 h2 h3
+      subst h1
+      simp
+    · rw [if_neg he] at h
+      injection h with h1 h2 h3
+      cases h2
+
+/-- **Over every schedule** (ticks with any clocks and tag values, cancel / force requests, completion reports
+    for command nodes) from the start of any method: a Block that is completed has been ended — so the loop of
+    its parent, which enters the next line only after the Block's visit has returned, starts the lines after
+    the Block only after the Block ended. -/
+theorem completed_block_is_ended (p : Prog) (reqs : List Req) (k : Nat) (hb : isBlock p k = true)
+    (hc : ((final p reqs).rt k).completed = true) : ((final p reqs).rt k).blockEnded = true :=
+  blockDone_final p reqs k hb hc
+
+/-- non-vacuity: in `demo` the inner block is completed (and ended) after 7 ticks, the outer one never is -/
+example : ((demoRun 7).rt 2).completed = true ∧ ((demoRun 7).rt 2).blockEnded = true ∧
+    ((demoRun 30).rt 1).completed = false := by decide +kernel
 
 end OPM.C05
